@@ -285,6 +285,18 @@ FailLevel(c, lv) ==
   IF lv.sub.set /\ ~lv.sub.ext /\ lv.sub.lv.err /\ FindSubcommand(c, lv.sub.name) # 0
   THEN FailLevel(Build(c.subs[SubView(c)[FindSubcommand(c, lv.sub.name)].i], c.childInh), lv.sub.lv)
   ELSE [c |-> c, led |-> lv.led, E |-> [args |-> [i \in 1..Len(lv.m) |-> EntryObs(lv.m[i])], sub |-> <<>>, has_sub |-> lv.sub.set]]
+\* C05, the rejecting side: once the failing level has consumed a bare `--` and has a positional that takes any number of
+\* values after it (the `last` one if there is one), no tail token can be "unknown": UnknownArgument / InvalidSubcommand
+\* would mean a tail token was read as a flag, option or subcommand.  (Declared value terminators stay sentinels.)
+P05Err(def, obs, top) ==
+  (obs.outcome = "Err" /\ ~def.s.ignore_errors /\ ~top.panic /\ obs.kind \in {"UnknownArgument", "InvalidSubcommand"}) =>
+     LET f == FailLevel(Build(def, NoInherit), top)
+         poss == Positionals(f.c)
+         lasts == SelectSeq(poss, LAMBDA p : p.last)
+         absorbs == IF lasts # <<>> THEN lasts[1].nmax >= INF ELSE \E k \in 1..Len(poss) : poss[k].nmax >= INF
+     IN ~(/\ \E i \in 1..Len(f.led) : f.led[i].k = "escape"
+          /\ absorbs
+          /\ \A k \in 1..Len(poss) : poss[k].term = <<>>)
 Justified(def, obs, top) ==
   LET f == FailLevel(Build(def, NoInherit), top) P == PresentArgs(f.c, f.E)
       occs == SelectSeq(f.led, LAMBDA o : o.k = "occ")
